@@ -89,6 +89,10 @@ class G:
             if y < 0.3 and (in_loop or in_switch):
                 self.feats.add('break')
                 return 'if (%s) break;' % self.cond(1)
+            if y < 0.42 and getattr(self, 'out_labels', None):
+                # leave any number of enclosing loops, switches and statement expressions at once
+                self.feats.add('goto-out-of-nesting')
+                return 'if (%s) goto %s;' % (self.cond(1), r.choice(self.out_labels))
             return 'MARK(%d);' % self.m()
         if x < 0.40:
             self.feats.add('if')
@@ -116,7 +120,13 @@ class G:
             self.lab += 1
             l = 'L%d' % self.lab
             self.feats.add('goto-forward')
-            return 'if (%s) goto %s; %s %s: MARK(%d);' % (self.cond(1), l, self.block(d + 1, in_loop, in_switch), l, self.m())
+            if not hasattr(self, 'out_labels'):
+                self.out_labels = []
+            c0 = self.cond(1)
+            self.out_labels.append(l)
+            b = self.block(d + 1, in_loop, in_switch)
+            self.out_labels.pop()
+            return 'if (%s) goto %s; %s %s: MARK(%d);' % (c0, l, b, l, self.m())
         if x < 0.84:
             self.lab += 1
             l = 'L%d' % self.lab
@@ -138,7 +148,11 @@ class G:
         if x < 0.95:
             return self.block(d + 1, in_loop, in_switch)
         self.feats.add('stmt-expr')
-        return '(void)({ %s 1; });' % self.stmt(d + 1, False, False)
+        if r.random() < 0.5:
+            return '(void)({ %s 1; });' % self.stmt(d + 1, False, False)
+        # break / continue of the enclosing loop from inside a statement expression
+        self.feats.add('stmt-expr-in-loop-context')
+        return '(void)({ %s 1; });' % self.stmt(d + 1, in_loop, in_switch)
 
     def switch(self, d, in_loop):
         r = self.rng
@@ -407,6 +421,9 @@ def run(ctx):
             progs.append((src, feats, 'trace'))
     for j in range(ctx.scale(6, 60)):
         progs += idiom_programs(rng, n + j)
+    # one hand-written program of ~180 idiomatic expression statements (struct values through ?: , and =, varargs of every class, short-circuit side
+    # effects, bit-field arithmetic, pointer walks, conversions, VLAs, compound literals in loops): the printed results must equal gcc == clang
+    progs.append((open(os.path.join(core.VERIF, 'rt', 'idioms_exec.c')).read(), {'hand-written-idioms'}, 'idiom-exec'))
     ctx.count('programs', n)
     results = core.pmap(run_case, [(i, cc, work, p[0]) for i, p in enumerate(progs)], chunksize=8)
     for idx, verdict, r in results:
